@@ -1676,6 +1676,11 @@ class Pool:
     @staticmethod
     def _help_stuff_finish(inqueue, task_handler, _pool):
         # task_handler may be blocked trying to put items on inqueue
+        if not task_handler.is_alive():
+            # never started (threads=False) or already gone: nobody to help,
+            # and nobody who would send the sentinel that makes an idle
+            # worker (waiting in recv under this lock) give the lock up.
+            return
         debug('removing tasks from inqueue until task handler finished')
         inqueue._rlock.acquire()
         while task_handler.is_alive() and inqueue._reader.poll():
